@@ -234,9 +234,15 @@ def gen_data_for(rng, ptype, big):
         args = gen.gen_args(rng, True, 5, bits=400, maxn=6)
         if big and rng.random() < 0.02:
             args.append(gen.gen_bytes(rng, big=True))
+        if rng.random() < 0.03:
+            # byte strings at any nesting depth
+            args.append(gen.gen_deep(rng))
         return [gen.gen_event_name(rng)] + args
     if ptype in (R.ACK, R.BINARY_ACK):
-        return gen.gen_args(rng, True, 5, bits=400, maxn=6)
+        args = gen.gen_args(rng, True, 5, bits=400, maxn=6)
+        if rng.random() < 0.03:
+            args.append(gen.gen_deep(rng))
+        return args
     r = rng.random()
     if r < 0.2:
         return None
